@@ -29,8 +29,8 @@ PLANS["C05"] = {
 }
 
 PLANS["C08"] = {
-    "quick": [J("writers", "p=1,f=1", 30), J("writers", "f=2", 60), J("writers2", "p=2,f=1", 60)],
-    "thorough": [J("writers", "p=2,f=2,s=1", 900), J("writers2", "p=3,f=1,s=1,t=1", 600)],
+    "quick": [J("writers", "p=1,f=1", 30), J("writers", "f=2", 60), J("writers2", "p=2,f=1", 60), J("race-client", "free-running, -race", 120, test="TestE3", shards=1, race=True)],
+    "thorough": [J("writers", "p=2,f=2,s=1", 900), J("writers2", "p=3,f=1,s=1,t=1", 600), J("race-client", "thorough", 300, test="TestE3", shards=1, race=True)],
 }
 PLANS["C10"] = {
     "quick": [J("wedge", "p=1,f=1", 45), J("wedge", "f=2", 45)],
@@ -82,8 +82,8 @@ PLANS["C15"] = {
     "thorough": [J("c15-codec", "thorough", 900, test="TestE3"), J("puborder", "p=2,f=1,s=1", 600), J("restart", "c=1,p=1", 300)],
 }
 PLANS["C20"] = {
-    "quick": [J("c20-doubles", "quick", 120, test="TestE3")],
-    "thorough": [J("c20-doubles", "thorough", 600, test="TestE3")],
+    "quick": [J("c20-doubles", "quick", 120, test="TestE3"), J("race-doubles", "free-running, -race", 120, test="TestE3", shards=1, race=True)],
+    "thorough": [J("c20-doubles", "thorough", 600, test="TestE3"), J("race-doubles", "free-running, -race", 120, test="TestE3", shards=1, race=True)],
 }
 
 PLANS["C14"] = {
@@ -98,9 +98,11 @@ PLANS["C16"] = {
 
 PLANS["C19"] = {
     "quick": [J("c19-stops", "quick", 120, test="TestE3"), J("fsconc1", "p=3,s=3", 40), J("fsconc2", "p=3,s=3", 40), J("c19-kernel", "quick", 120, test="TestE3", shards=4)]
-    + [J("fsbit%02d" % b, "p=2,s=2", 30, shards=4) for b in range(17)],
+    + [J("fsbit%02d" % b, "p=2,s=2", 30, shards=4) for b in range(17)]
+    + [J("race-fs", "free-running, -race", 120, test="TestE3", shards=1, race=True)],
     "thorough": [J("c19-stops", "thorough", 900, test="TestE3"), J("fsconc1", "p=6,s=6", 600), J("fsconc2", "p=6,s=6", 600), J("c19-kernel", "thorough", 600, test="TestE3", shards=4)]
-    + [J("fsbit%02d" % b, "p=4,s=4", 120) for b in range(17)],
+    + [J("fsbit%02d" % b, "p=4,s=4", 120) for b in range(17)]
+    + [J("race-fs", "free-running, -race", 120, test="TestE3", shards=1, race=True)],
 }
 
 LEVELS = {}
